@@ -7,7 +7,7 @@ import sqlite3
 import uuid
 from datetime import UTC, datetime, timedelta
 from enum import Enum
-from typing import TYPE_CHECKING
+from typing import TYPE_CHECKING, Any
 
 from stabilize.errors import ConcurrencyError
 from stabilize.persistence.sqlite.helpers import insert_stage, upsert_task
@@ -163,7 +163,7 @@ class AtomicTransaction(StoreTransaction):
         else:
             insert_stage(self._conn, stage, stage.execution.id)
 
-    def update_workflow_status(self, workflow: Workflow) -> None:
+    def update_workflow_status(self, workflow: Workflow, expected_status: str | None = None) -> None:
         """Update workflow status within the transaction.
 
         This performs the same operations as SqliteWorkflowStore.update_status()
@@ -172,22 +172,32 @@ class AtomicTransaction(StoreTransaction):
 
         Args:
             workflow: Workflow with updated status
+            expected_status: If given, compare-and-swap: only update while the
+                row still has this status and the canceled flag ``workflow``
+                was loaded with; raise ConcurrencyError otherwise.
         """
-        self._conn.execute(
-            """
+        sql = """
             UPDATE pipeline_executions SET
                 status = :status,
                 start_time = :start_time,
                 end_time = :end_time
             WHERE id = :id
-            """,
-            {
-                "id": workflow.id,
-                "status": workflow.status.name,
-                "start_time": workflow.start_time,
-                "end_time": workflow.end_time,
-            },
-        )
+            """
+        params: dict[str, Any] = {
+            "id": workflow.id,
+            "status": workflow.status.name,
+            "start_time": workflow.start_time,
+            "end_time": workflow.end_time,
+        }
+        if expected_status is not None:
+            sql += " AND status = :expected_status AND is_canceled = :is_canceled"
+            params["expected_status"] = expected_status
+            params["is_canceled"] = 1 if workflow.is_canceled else 0
+        cursor = self._conn.execute(sql, params)
+        if expected_status is not None and cursor.rowcount == 0:
+            raise ConcurrencyError(
+                f"Workflow {workflow.id} is no longer {expected_status} (or was canceled) - status update refused"
+            )
 
     def push_message(
         self,
